@@ -19,11 +19,11 @@ def stepByte (crc : BitVec 32) (byte : UInt8) : BitVec 32 :=
 def update (crc : BitVec 32) (bs : Bytes) : BitVec 32 := bs.foldl stepByte crc
 
 /-- zero the checksum field in the first chunk, as the C loop does
-(`if (offset == 0 && bytes_read >= 10) buf[6..9] = 0`) -/
+(`if (offset == 0 && bytes_read >= 10) buf[6] = buf[7] = buf[8] = buf[9] = 0`).  The positions are
+the format's (bytes 6..9 after magic, version and feature byte); that the code still uses these
+is the side-condition `Sb.C05.crc_field_position` on the generated constants. -/
 def zeroField (chunk : Bytes) : Bytes :=
-  if chunk.length ≥ Gen.crcZeroMinRead then
-    chunk.mapIdx (fun i x => if Gen.crcZeroIdx.contains i then 0 else x)
-  else chunk
+  if chunk.length ≥ 10 then chunk.take 6 ++ [0, 0, 0, 0] ++ chunk.drop 10 else chunk
 
 /-- the `while (1)` loop of `sb_i_binary_file_get_crc32`, reading `Gen.crcChunk` bytes at a time;
 `first` = (offset == 0). -/
